@@ -766,9 +766,10 @@ func main() {
 	r.Set("response_inputs", len(rin))
 
 	// ----- Pass 0 (production match-set length 1024): every program with <=1 rule, every fallback -----
-	shares := []float64{0.20, 0.55, 1.0, 1.0}
+	// cumulative shares of the tier budget: <=1-rule full-size pass | interleaved + router | leg 2 | 2-rule bulk | 3-rule bulk
+	shares := []float64{0.20, 0.30, 0.60, 1.0, 1.0}
 	if thorough {
-		shares = []float64{0.10, 0.35, 0.80, 1.0}
+		shares = []float64{0.08, 0.12, 0.38, 0.80, 1.0}
 	}
 	setShare(shares[0])
 	(&matcherRun{name: "upto1rule_fullsize", nUp: nUp, rin: rin, froms: froms,
@@ -779,6 +780,7 @@ func main() {
 	// the matchers allocate 5 arrays of that length per program, which otherwise dominates the run time.
 	consts.MaxMatchSetLen = 64
 
+	setShare(shares[1])
 	// reduced pools: internal selectors interleaved (all 1..2-rule programs) and the router leg
 	redConds := [][]Cond{{QN[1]}, {QN[2]}, {neg(QN[0])}, {QT[0]}, {QT[1]}, {QT[4]}, {neg(QT[3])}, {QN[3], QT[2]}, {QN[5], QT[1]}, {QN[4]}}
 	redOuts := []string{"ub", "ua", "reject"}
@@ -794,18 +796,18 @@ func main() {
 	legDone("leg1c_router")
 
 	// ----- Leg 2 (before the 2-rule bulk of leg 1, so that it always gets its share) -----
-	setShare(shares[1])
+	setShare(shares[2])
 	runLeg2(r)
 	legDone("leg2_flow")
 
 	// ----- Leg 1 bulk: every 2-rule program -----
-	setShare(shares[2])
+	setShare(shares[3])
 	(&matcherRun{name: "2rules", nUp: nUp, rin: rin, froms: froms,
 		req:  &space{name: "request", nUp: nUp, inputs: reqIn, rules: reqRules, fallbacks: reqFb2, minRules: 2, maxRules: 2},
 		resp: &space{name: "response", nUp: nUp, inputs: plainIn, rules: respRules, fallbacks: respFb2, minRules: 2, maxRules: 2}}).run(r)
 	legDone("leg1_2rules")
 	if thorough {
-		setShare(shares[3])
+		setShare(shares[4])
 		red := [][]Cond{{upB}, {neg(upA)}, {ipIn}, {neg(ipMix)}, {rQT[1]}, {rQN[1]}, {ipIn, rQN[2]}, {upA, rQT[0]}}
 		(&matcherRun{name: "3rules", nUp: nUp, rin: rin, froms: froms,
 			req:  &space{name: "request3", nUp: nUp, inputs: reqIn, rules: mkRules(redConds, append(redOuts, "asis"), reqIn), fallbacks: []string{"ub", "asis", "reject"}, minRules: 3, maxRules: 3},
